@@ -49,6 +49,9 @@ func run() {
 	}
 	plugin.VerifSetHook(func(ev string, obj interface{}, a, b int64) {
 		logEvent(ev, a, b)
+		if ev == "serve.stdio.swapped" && len(pc.StdioScript) > 0 {
+			vp.RunStdioScript(pc.StdioScript)
+		}
 		if pc.Crash != nil && pc.Crash.Event == ev {
 			logMu.Lock()
 			counts[ev]++
